@@ -24,12 +24,13 @@ B = ("bnode", "b")
 TERMS = {
     # object position alphabets
     "dt": [("lit", "v", None, "http://dt/0"), ("lit", "v", None, "http://dt/1"), ("lit", "v", None, "http://dt/2"), ("lit", "w", None, None)],
+    "names": [("iri", "http://p/a"), ("iri", "http://p/b"), ("iri", "http://p/c"), ("iri", "http://p/d")],
     "iri": [("iri", "http://p1/n1"), ("iri", "http://p1/n2"), ("iri", "http://p2/n1"), ("iri", "http://p2/n3"), ("iri", "n2"), ("iri", "http://p3/n3")],
 }
 
 
 def pre_bmc(sel) -> bool:
-    if len(sel) != P["K"] - len(P.get("fixed", [])):
+    if len(sel) != P["K"] - len(P.get("fixed", [])) - len(P.get("first", [])):
         return False
     n = len(TERMS[P["alph"]])
     return all_([(0 <= v) & (v < n) for v in sel])
@@ -46,6 +47,12 @@ def termbmc(sel: List[int]) -> bool:
         picks = [al[i] for i in P.get("fixed", [])] + [alpha.pick(v, al) for v in sel]
         # two table-using terms per statement when P["two"]: subject is the previous pick (generalized allows literals)
         items = []
+        if P.get("three"):
+            # three table-using terms per statement (s, p, o all IRIs): picks are consumed three at a time
+            picks = [al[i] for i in P.get("first", [])] + picks[len(P.get("fixed", [])):] if P.get("first") else picks
+            for j in range(0, len(picks) - 2, 3):
+                items.append(("T", picks[j], picks[j + 1], picks[j + 2]))
+            picks = []
         for i, t in enumerate(picks):
             s = picks[i - 1] if (P.get("two") and i > 0 and integ == "generic") else B
             items.append(("T", s if (s[0] != "lit" or integ == "generic") else B, ("iri", "http://p1/n1") if P["alph"] == "dt" else B if integ == "generic" else ("iri", "n2"), t))
